@@ -24,7 +24,7 @@ func c13(cx *Ctx, r *ev.Report) {
 	res := ri.explore()
 	// (1) every cycle passes a cancellation check that precedes Step; a
 	// positive check leads to the context's error without another Step
-	ruleC := "CHECK-EVERY-CYCLE: every iteration of Run's loop tests cancellation before its Step, and a positive test returns the context's error without executing another Step (from R-AUTOMATON)"
+	ruleC := "CHECK-EVERY-CYCLE: every iteration of Run's loop tests cancellation before its Step, and a positive test returns the context's error without executing another Step (value summary of the loop iteration; CFG automaton as fallback)"
 	var det []string
 	if sem := cx.runSem(); sem.err == nil {
 		det = append(det, sem.violations...)
@@ -295,7 +295,7 @@ func c13(cx *Ctx, r *ev.Report) {
 	r.Assumptions = append(r.Assumptions, commonAssumptions...)
 	r.Assumptions = append(r.Assumptions, "context.WithCancel, Context.Done/Err and sync/atomic behave as documented (Go memory model: an atomic store observed by an atomic load orders the writes before it)")
 	r.Trusted = []string{"golang.org/x/tools/go/ssa v0.29.0", "verif/internal/checks/c08.go, c13.go", "context, sync/atomic (library semantics)"}
-	r.Explanation = "Decided structurally: every loop iteration tests cancellation before its Step and a positive test returns the context's error with no further Step, so Run returns within one Step (finite: no loop below Step, C12) of observing the flag; the watcher goroutine captures only local cells, waits on the derived context, records the error and only then publishes with an atomic store, Run touches the flag only atomically and reads the error only after a positive test (no data race), the derived context's cancel is deferred before the goroutine starts and runs on every return (no leak); Run changes the CPU only through whole Steps (state reachable by a whole number of Steps). NOT decided: the real-time delay between cancellation and return (scheduler latency before the watcher runs) and races inside user callbacks."
+	r.Explanation = "Decided on the value summary of Run's loop (see C08) and, for the hand-off, by interpreting the function the watcher goroutine runs - wherever it is started (a go statement in Run or in a helper, or context.AfterFunc) - on a trace of its own: every iteration reads a fresh observation of the cancellation state before its Step and the decision not to Step depends on nothing else, a positive test returns the context's error with no further Step, so Run returns within one Step (finite: no unbounded loop below Step, C12) of observing the cancellation; the goroutine captures nothing of the CPU, receives once from Done() of the context Run derives (or is registered with AfterFunc), writes the error and only then publishes with one atomic store (a flag, or a pointer to the already written error); Run loads the published cell only atomically, reads a plainly written cell only on paths that observed the publication, never writes a captured cell after the go statement (no data race under the Go memory model); every return is covered by a deferred call of the derived context's CancelFunc (no goroutine left behind); Run changes the CPU only through whole Steps (state reachable by a whole number of Steps). A watcher outside this vocabulary (channels, mutexes, WaitGroups) is reported as undecided. NOT decided: the real-time delay between cancellation and return (scheduler latency before the watcher runs) and races inside user callbacks."
 }
 
 // instrBefore: a executes before b on every path reaching b (same block
